@@ -153,7 +153,8 @@ def o_frac_births(a, c16):
 
 
 def o_frac_fert(a, c16):
-    """ fertility table stamped y0+1/2, y0+3/2, ... (yearly spacing: the 1-year re-indexing keeps every written row) """
+    """ fertility table stamped y0+1/2, y0+3/2, ... (yearly spacing: the 1-year re-indexing keeps every written row), or irregularly (judged
+        only where the sought time is at / beyond the first or last written stamp) """
     import starsim as ss
     from harness.props import c16_round2 as r2
     c06 = c16.c06
@@ -167,11 +168,15 @@ def o_frac_fert(a, c16):
     stamps = sorted(set(rows['Time'])); starts = sorted(set(rows['AgeGrp']))
     cell = {(y, g): v for y, g, v in zip(rows['Time'], rows['AgeGrp'], rows['ASFR'])}
     ages = np.array(ppl.age[uids], dtype=float); fec = np.array(pg.fecund[uids])
+    regular = all(float(y - stamps[0]).is_integer() for y in stamps)
     for ti in a.get('tis') or range(min(pg.t.npts, 24)):
         if ti >= pg.t.npts: continue
         r2.set_ti(sim, pg, ti)
         now = float(pg.t.now('year')); shift = float(pg.pars.dur_pregnancy.to('year').values)
         oks = nearest_set(stamps, now - shift)
+        if not regular:   # between irregular stamps the module interpolates on a yearly grid (not judged here); at or beyond the first / last written
+            if stamps[0] < now - shift < stamps[-1]: continue   # time every reading (nearest row, interpolation held constant) gives the boundary row
+            oks = [stamps[-1]] if now - shift >= stamps[-1] else [stamps[0]]
         pr = np.asarray(ss.Pregnancy.make_fertility_prob_fn(pg, sim, uids), dtype=float)
         for k in range(len(uids)):
             below = [g for g in starts + [max(starts) + 1] if g <= ages[k]]
@@ -182,7 +187,12 @@ def o_frac_fert(a, c16):
                 if not elig or g is None or g == max(starts) + 1: wants.append(Fr(0))
                 else: wants.append(min(max(c06.fr(np.float32(cell[(y, g)])) * c06.fr(ru) * step, 0), 1))
             if not any(c06.close(w, c06.fr(pr[k]), 2.0 ** -19, 1e-300) for w in wants):
-                return [F(dict(oracle='table-index', process='fertility', form=form, law='wrong-entry'),
+                law = 'wrong-entry'
+                try:   # classification of the failure only (the reference above never reads the module's data)
+                    stored = [float(x) for x in pg.fertility_rate_data.index]
+                    if any(all(abs(y - x) > 1e-9 for x in stored) for y in stamps): law = 'row-dropped-by-yearly-reindex'
+                except Exception: pass
+                return [F(dict(oracle='table-index', process='fertility', form=form, law=law),
                           f"fertility table ({form}; reference times {stamps}, age starts {starts}) in a module stepping {pg.t.dt} {pg.t.unit}, at {now:.4f} (ti={ti}): woman aged "
                           f"{ages[k]:.2f} has conception probability {pr[k]!r}; the row nearest to now-{shift} is {oks[0]}, age bin {g} -> expected {float(wants[0])!r}")]
     return []
@@ -256,6 +266,11 @@ def search(ctx, c16, run_oracle):
                 rows['Time'].append(y0 + i); rows['AgeGrp'].append(g); rows['ASFR'].append(round(rng.uniform(5, 250), 1))
         sim, mod = SIMS6[k]
         run_oracle(ctx, 'frac_fert', dict(sim=sim, mod=mod, table=rows, form=FORMS[k % 3]))
+    st = rng.choice([[2000.5, 2001.75], [1999.75, 2000.25, 2001.9], [2000.0, 2000.5, 2001.0]]); rows = dict(Time=[], AgeGrp=[], ASFR=[])
+    for y in st:   # irregular reference times
+        for g in (15, 25, 35):
+            rows['Time'].append(y); rows['AgeGrp'].append(g); rows['ASFR'].append(round(rng.uniform(5, 250), 1))
+    run_oracle(ctx, 'frac_fert', dict(sim=['year', 0.25, 4], mod={}, table=rows, form=rng.choice(FORMS)))
 
 
 # ---------------------------------------------------------------------------
